@@ -23,7 +23,37 @@ func (w *World) expandStructural() {
 		return
 	}
 	w.expanded = true
+	// "fields_copied *": every DeepCopy method of the package (pointer receiver to a struct) that is not listed
+	// explicitly - so that a DeepCopy method ADDED later (and picked up by deepcopy.Slice through its Copier
+	// interface) is under the same per-field obligations from its first day
+	var extra []*FieldsCopied
 	for _, fc := range w.C.FCopied {
+		if fc.Func != fc.Pkg+".*" {
+			continue
+		}
+		for name, fn := range w.P.Funcs {
+			if FuncPkgPath(fn) != fc.Pkg || fn.Name() != "DeepCopy" || fn.Signature.Recv() == nil || len(fn.Params) == 0 {
+				continue
+			}
+			if _, ok := structOf(deref(fn.Params[0].Type())); !ok {
+				continue
+			}
+			listed := false
+			for _, other := range w.C.FCopied {
+				if other.Func == name {
+					listed = true
+				}
+			}
+			if !listed {
+				extra = append(extra, &FieldsCopied{Func: name, Tags: fc.Tags, Pkg: fc.Pkg, File: fc.File, Line: fc.Line, Skip: map[string]string{}})
+			}
+		}
+	}
+	w.C.FCopied = append(w.C.FCopied, extra...)
+	for _, fc := range w.C.FCopied {
+		if fc.Func == fc.Pkg+".*" {
+			continue
+		}
 		fn := w.P.Funcs[fc.Func]
 		c := w.C.Funcs[fc.Func]
 		if c == nil {
